@@ -4,18 +4,39 @@ From BG Require Import Base DirectedModel DirectedSpec UndirectedModel Undirecte
 Local Open Scope Z_scope.
 (* the alphabet asked about in hasEdge(i,j,l): 0..3 for labelled graphs, the single NoLabel value otherwise *)
 Definition alpha (hs : bool) : list Z := if hs then [0; 1; 2; 3] else [0].
-Definition d_trace (hs : bool) (v : variant) (n : nat) (ops : list (@dop Z)) : list (list (list Z)) :=
-  trace Z.eqb 0 (fun z => z) (alpha hs) hs v (init n) ops.
-Definition d_spec_trace (hs : bool) (n : nat) (ops : list (@dop Z)) : list (option (list (list Z))) :=
-  spec_trace Z.eqb 0 hs (fun z => z) (alpha hs) (s_init n) ops.
-Definition u_trace_z (hs : bool) (v : variant) (n : nat) (ops : list (@uop Z)) : list (list (list Z)) :=
-  u_trace Z.eqb 0 (fun z => z) (alpha hs) hs v (init n) ops.
-Definition u_spec_trace (hs : bool) (n : nat) (ops : list (@uop Z)) : list (option (list (list Z))) :=
-  uspec_trace Z.eqb 0 hs (fun z => z) (alpha hs) (s_init n) ops.
+(* ---- out-of-range queries (C07): every observer that takes a vertex, asked about v (and about the pair (v,0), (0,v)) ---- *)
+Definition zlen {A} (o : outcome (list A)) : Z := zout (fun l => Z.of_nat (length l)) o.
+Definition d_query (hs : bool) (g : @dgraph Z) (v : nat) : list Z :=
+  [ zout zbool (has_edge g v 0); zout zbool (has_edge g 0 v); zlen (out_neighbours g v); zout zn (out_degree g v); zout zn (in_degree repaired g v);
+    zout (fun z => z) (get_label 0 hs g v 0 false); zout (fun z => z) (get_label 0 hs g 0 v true); zout zbool (has_edge_l Z.eqb 0 hs g v 0 0) ].
+Definition u_query (hs : bool) (g : @dgraph Z) (v : nat) : list Z :=
+  [ zout zbool (u_has_edge g v 0); zout zbool (u_has_edge g 0 v); zlen (out_neighbours g v); zout zn (u_degree g v true); zout zn (u_degree g v false);
+    zout (fun z => z) (u_get_label 0 hs g v 0 false); zout (fun z => z) (u_get_label 0 hs g 0 v true); zout zbool (u_has_edge_l Z.eqb 0 hs g v 0 0) ].
+Definition dm_query (m : mgraph) (v : nat) : list Z :=
+  [ zout zbool (has_edge (mg m) v 0); zout zbool (has_edge (mg m) 0 v); zlen (out_neighbours (mg m) v); zout zid (dm_get_multiplicity m v 0); zout zid (dm_get_multiplicity m 0 v);
+    zout zid (dm_out_degree m v); zout zid (dm_in_degree repaired m v) ].
+Definition um_query (m : mgraph) (v : nat) : list Z :=
+  [ zout zbool (um_has_edge m v 0); zout zbool (um_has_edge m 0 v); zlen (out_neighbours (mg m) v); zout zid (um_get_multiplicity m v 0); zout zid (um_get_multiplicity m 0 v);
+    zout zid (um_degree m v true); zout zid (um_degree m v false) ].
+Definition dw_query (m : mgraph) (v : nat) : list Z :=
+  [ zout zbool (has_edge (mg m) v 0); zout zbool (has_edge (mg m) 0 v); zlen (out_neighbours (mg m) v); zout zid (dw_get_weight m v 0 false); zout zid (dw_get_weight m 0 v true);
+    zout zn (out_degree (mg m) v); zout zn (in_degree repaired (mg m) v) ].
+Definition uw_query (m : mgraph) (v : nat) : list Z :=
+  [ zout zbool (u_has_edge (mg m) v 0); zout zbool (u_has_edge (mg m) 0 v); zlen (out_neighbours (mg m) v); zout zid (uw_get_weight m v 0 false); zout zid (uw_get_weight m 0 v true);
+    zout zn (u_degree (mg m) v true); zout zn (u_degree (mg m) v false) ].
+
+Definition d_trace (hs : bool) (v : variant) (n : nat) (ops : list (@dop Z + nat)) : list (list (list Z)) :=
+  gtrace (step hs v) (observe Z.eqb 0 (fun z => z) (alpha hs) hs v) (d_query hs) (init n) ops.
+Definition d_spec_trace (hs : bool) (n : nat) (ops : list (@dop Z + nat)) : list (option (list (list Z))) :=
+  gspec_trace rejected_code spec_step (sobserve Z.eqb 0 hs (fun z => z) (alpha hs)) sn 8 (s_init n) ops.
+Definition u_trace_z (hs : bool) (v : variant) (n : nat) (ops : list (@uop Z + nat)) : list (list (list Z)) :=
+  gtrace (ustep hs v) (u_observe Z.eqb 0 (fun z => z) (alpha hs) hs v) (u_query hs) (init n) ops.
+Definition u_spec_trace (hs : bool) (n : nat) (ops : list (@uop Z + nat)) : list (option (list (list Z))) :=
+  gspec_trace u_rejected_code uspec_step (sobserve_u Z.eqb 0 hs (fun z => z) (alpha hs)) sn 8 (s_init n) ops.
 (* multigraphs and weighted graphs; the two repaired behaviours that have no variant flag are passed explicitly *)
-Definition dm_trace_z (v : variant) (n : nat) (ops : list mop) := m_trace (dm_step v) (dm_observe v) (dm_init n) ops.
-Definition um_trace_z (v : variant) (set0 : bool) (n : nat) (ops : list mop) := m_trace (um_step v set0) (um_observe v) (dm_init n) ops.
-Definition dw_trace_z (v : variant) (n : nat) (ops : list wop) := w_trace (dw_step v) (dw_observe v) (dm_init n) ops.
-Definition uw_trace_z (v : variant) (canon : bool) (n : nat) (ops : list wop) := w_trace (uw_step v canon) (uw_observe v) (dm_init n) ops.
-Definition m_spec_trace (und : bool) (n : nat) (ops : list mop) := mspec_trace und (s_init n) ops.
-Definition w_spec_trace (und : bool) (n : nat) (ops : list wop) := wspec_trace und (s_init n) ops.
+Definition dm_trace_z (v : variant) (n : nat) (ops : list (mop + nat)) := gtrace (dm_step v) (dm_observe v) dm_query (dm_init n) ops.
+Definition um_trace_z (v : variant) (set0 : bool) (n : nat) (ops : list (mop + nat)) := gtrace (um_step v set0) (um_observe v) um_query (dm_init n) ops.
+Definition dw_trace_z (v : variant) (n : nat) (ops : list (wop + nat)) := gtrace (dw_step v) (dw_observe v) dw_query (dm_init n) ops.
+Definition uw_trace_z (v : variant) (canon : bool) (n : nat) (ops : list (wop + nat)) := gtrace (uw_step v canon) (uw_observe v) uw_query (dm_init n) ops.
+Definition m_spec_trace (und : bool) (n : nat) (ops : list (mop + nat)) := gspec_trace m_rejected_code (mspec_step und) (sobserve_m und) sn 7 (s_init n) ops.
+Definition w_spec_trace (und : bool) (n : nat) (ops : list (wop + nat)) := gspec_trace w_rejected_code (wspec_step und) (sobserve_w und) sn 7 (s_init n) ops.
